@@ -3,7 +3,8 @@ from vlib import Job
 META = dict(
     bounds='iovector_view with 0..NE elements (3) of symbolic length 0..ML (2 quick / 3 thorough) in exact-size heap blocks, iovec array of exactly iovcnt entries; '
            'request sizes 0..total+2, offsets 0..total+1, destination views of 0..2 elements / 0..3 slots; one operation per harness run',
-    outside='sequences of several operations; the owning iovector class wrappers (IOVectorEntity, allocator callbacks); elements longer than ML bytes; more than 3 elements',
+    outside='sequences of several operations; of the owning iovector class only extract_front/back (discard, copy-out, contiguous incl. the gathering path) and shrink_to are encoded (IOVectorEntity<4,0>, '
+            'recording allocator that may fail) - push_front/back_more, truncate-up, slice / extract into another iovector, move are not; elements longer than ML bytes; more than 3 elements',
     assumptions=['malloc never fails', 'logging macros have empty bodies', 'NDEBUG build: assert() compiled out (as shipped)'],
 )
 SRC = 'C14/h_iov.cpp'
@@ -22,4 +23,9 @@ def jobs(tier):
     for pipe in (0, 1):
         J.append(Job('copy_to_view_%s' % ('pipe' if pipe else 'memcpy'), SRC, 'harness_view', defines=['OP=12', 'PIPE=%d' % pipe, 'NEL=3', 'MLEN=%d' % ml], unwind=3 * ml + 4, shims=SH,
                      timeout=900 if q else 5000, desc='iovector_view::%s(view) vs flat byte model' % ('pipe_to' if pipe else 'memcpy_to'), bounds='<=3 elements x <=%d bytes, destination <=2 elements' % ml))
+    # the owning class: IOVectorEntity<4,0> with a recording allocator (may fail, exact-size blocks)
+    STUB = ['--stub', '^@_ZN7IOAlloc17default_allocatorEPvNS_9RangeSizeEPS0_$', '--stub', '^@_ZN7IOAlloc19default_deallocatorEPvS0_$']
+    for op, nm in enumerate(['own_extract_continuous', 'own_extract', 'own_shrink_to']):
+        J.append(Job(nm, SRC, 'harness_own', defines=['OWN', 'OP=%d' % op, 'NEL=3', 'MLEN=2'], unwind=3 * 2 + 5, shims=SH + ['c12_stubs.c'], ir2c=STUB, timeout=900 if q else 5000,
+                     mem_gb=8, desc='iovector (owning, IOVectorEntity<4,0>)::%s vs flat byte model' % nm[4:], bounds='<=3 elements x <=2 bytes (both tiers: 3-byte elements were not run to a verdict), request 0..total+2, allocator may fail'))
     return J
